@@ -96,15 +96,22 @@ Theorem C07_inverse_gyration : forall (cell : option RV) (mass : nat -> R) (pos 
 Proof. exact thm_inverse_gyration. Qed.
 Print Assumptions C07_inverse_gyration.
 
-(* rmsd without rotation, with any number of permuted copies of the reference (atomPermutation): whichever copy is the closest, gradients and
-   inverse gradients use the same one; when the group is centred it must be centred on the centre of the reference positions *)
-Theorem C07_inverse_rmsd : forall (cell : option RV) (mass : nat -> R) (pos : RF) (ids : list nat) (refs : list RV) (extra : list (list RV)) (center : option RV) (fc : R),
+(* rmsd without rotation and without centring, with any number of permuted copies of the reference (atomPermutation): whichever copy is the\n   closest, gradients and inverse gradients use the same one *)
+Theorem C07_inverse_rmsd : forall (cell : option RV) (mass : nat -> R) (pos : RF) (ids : list nat) (refs : list RV) (extra : list (list RV)) (fc : R),
   NoDup ids -> (forall r, In r (refs :: extra) -> length r = length ids) ->
-  rmsd_value Rops pos ids (rmsd_best Rops pos ids refs extra center) center <> 0 ->
-  (forall rc, center = Some rc -> forall r, In r (refs :: extra) -> vsum Rops r = vscale Rops (ofnat Rops (length ids)) rc) ->
-  cvc_ft Rops PI cell mass pos (CRmsd ids refs extra center) (cvc_apply Rops PI cell mass pos (CRmsd ids refs extra center) fc) = fc.
+  rmsd_value Rops pos ids (rmsd_best Rops pos ids refs extra None) None <> 0 ->
+  cvc_ft Rops PI cell mass pos (CRmsd ids refs extra None) (cvc_apply Rops PI cell mass pos (CRmsd ids refs extra None) fc) = fc.
 Proof. exact thm_inverse_rmsd. Qed.
 Print Assumptions C07_inverse_rmsd.
+
+(* centred rmsd (fit gradients on; code with fix-C07-3): the total force is projected on the complete gradient grad + fit, normalised by its\n   squared norm: the inverse holds wherever the group is centred (the earlier condition on the centre of its own references is gone) *)
+Theorem C07_inverse_rmsd_centered : forall (cell : option RV) (mass : nat -> R) (pos : RF) (ids : list nat) (refs : list RV) (extra : list (list RV)) (rc : RV) (fc : R),
+  NoDup ids -> (forall r, In r (refs :: extra) -> length r = length ids) ->
+  (let g := rmsd_grads Rops pos ids (rmsd_best Rops pos ids refs extra (Some rc)) (Some rc) in
+   norm2_sum Rops (vadd_list Rops g (fit_grads Rops (length ids) (Some rc) g)) <> 0) ->
+  cvc_ft Rops PI cell mass pos (CRmsd ids refs extra (Some rc)) (cvc_apply Rops PI cell mass pos (CRmsd ids refs extra (Some rc)) fc) = fc.
+Proof. exact thm_inverse_rmsd_centered. Qed.
+Print Assumptions C07_inverse_rmsd_centered.
 
 (* eigenvector without rotation (any centring): the centred vector must not be null *)
 Theorem C07_inverse_eigenvector : forall (cell : option RV) (mass : nat -> R) (pos : RF) (ids : list nat) (refs evec : list RV) (center : option RV) (fc : R),
@@ -113,16 +120,24 @@ Theorem C07_inverse_eigenvector : forall (cell : option RV) (mass : nat -> R) (p
 Proof. exact thm_inverse_eigenvector. Qed.
 Print Assumptions C07_inverse_eigenvector.
 
-(* rotated frames (the default fit of rmsd / eigenvector): the rotation matrix used at the step is an input of the model; whenever it is
-   orthogonal (R R^T = 1), rotating the forces into the frame of the gradients (read_total_forces) inverts rotating the applied forces back;
-   with atomPermutation copies as above *)
-Theorem C07_inverse_rmsd_rotated : forall (cell : option RV) (mass : nat -> R) (pos : RF) (ids : list nat) (refs : list RV) (extra : list (list RV)) (rotf : RF -> RQ) (jdf : RF -> R) (fc : R),
-  NoDup ids -> (forall r, In r (refs :: extra) -> length r = length ids) ->
-  qnorm2 Rops (rotf pos) = 1 ->
-  rmsdrot_value Rops pos ids refs (rotmat Rops (rotf pos)) (rmsdrot_best Rops pos ids refs extra (rotmat Rops (rotf pos))) <> 0 ->
-  cvc_ft Rops PI cell mass pos (CRmsdRot ids refs extra rotf jdf) (cvc_apply Rops PI cell mass pos (CRmsdRot ids refs extra rotf jdf) fc) = fc.
+(* rotated frames (the default fit of rmsd / eigenvector): the optimal quaternion of the step is an input of the model, the matrices are\n   quaternion::rotation_matrix of it and of its conjugate; for every unit quaternion, rotating the forces into the frame of the gradients\n   (read_total_forces) inverts rotating the applied forces back.  Standard rmsd (no atomPermutation): no fit gradients *)
+Theorem C07_inverse_rmsd_rotated : forall (cell : option RV) (mass : nat -> R) (pos : RF) (ids : list nat) (refs : list RV) (rotf : RF -> RQ) (jdf : RF -> R) (fitf : RF -> list RV) (fc : R),
+  NoDup ids -> length refs = length ids -> qnorm2 Rops (rotf pos) = 1 ->
+  rmsdrot_value Rops pos ids refs (rotmat Rops (rotf pos)) refs <> 0 ->
+  cvc_ft Rops PI cell mass pos (CRmsdRot ids refs [] rotf jdf fitf) (cvc_apply Rops PI cell mass pos (CRmsdRot ids refs [] rotf jdf fitf) fc) = fc.
 Proof. exact thm_inverse_rmsd_rotated. Qed.
 Print Assumptions C07_inverse_rmsd_rotated.
+
+(* symmetry-adapted rotated rmsd (atomPermutation, default fit): the applied forces contain fc * fit_gradients (derivatives of the optimal rotation,\n   an input of the model); with fix-C07-3 the total force is projected on the complete gradient, and that is the inverse for EVERY value of the input *)
+Theorem C07_inverse_rmsd_rotated_permuted : forall (cell : option RV) (mass : nat -> R) (pos : RF) (ids : list nat) (refs : list RV) (e : list RV) (es : list (list RV)) (rotf : RF -> RQ) (jdf : RF -> R) (fitf : RF -> list RV) (fc : R),
+  NoDup ids -> (forall r, In r (refs :: e :: es) -> length r = length ids) -> length (fitf pos) = length ids ->
+  qnorm2 Rops (rotf pos) = 1 ->
+  (let R := rotmat Rops (rotf pos) in
+   let g := rmsdrot_grads Rops pos ids refs R (rmsdrot_best Rops pos ids refs (e :: es) R) in
+   norm2_sum Rops (vadd_list Rops g (map (mvmul Rops R) (fitf pos))) <> 0) ->
+  cvc_ft Rops PI cell mass pos (CRmsdRot ids refs (e :: es) rotf jdf fitf) (cvc_apply Rops PI cell mass pos (CRmsdRot ids refs (e :: es) rotf jdf fitf) fc) = fc.
+Proof. exact thm_inverse_rmsd_rotated_permuted. Qed.
+Print Assumptions C07_inverse_rmsd_rotated_permuted.
 
 (* quaternion::rotation_matrix of a unit quaternion is orthogonal (R R^T = 1) and rotation::inverse().matrix() (conjugate quaternion) is its transpose *)
 Theorem C07_rotation_matrices : forall q : RQ, qnorm2 Rops q = 1 ->
@@ -385,10 +400,13 @@ Example C07_ex_dihedral :
 Proof. exact ex_dihedral. Qed.
 Example C07_ex_gyration : NoDup [0%nat; 1%nat] /\ gyr_value Rops ex_pos [0%nat; 1%nat] <> 0.
 Proof. exact ex_gyration. Qed.
-Example C07_ex_rmsd : forall c, c = None \/ c = Some (0, 0, 0) ->
-  NoDup [0%nat; 1%nat] /\ length ex_refs = length [0%nat; 1%nat] /\ rmsd_value Rops ex_pos [0%nat; 1%nat] ex_refs c <> 0 /\
-  (forall rc, c = Some rc -> vsum Rops ex_refs = vscale Rops (ofnat Rops (length [0%nat; 1%nat])) rc).
-Proof. exact ex_rmsd. Qed.
+Example C07_ex_rmsd :
+  NoDup [0%nat; 1%nat] /\ length ex_refs = length [0%nat; 1%nat] /\ rmsd_value Rops ex_pos [0%nat; 1%nat] ex_refs None <> 0.
+Proof. exact ((fun H => conj (proj1 H) (conj (proj1 (proj2 H)) (proj1 (proj2 (proj2 H))))) (ex_rmsd None (or_introl eq_refl))). Qed.
+Example C07_ex_rmsd_centered :
+  let g := rmsd_grads Rops ex_pos [0%nat; 1%nat] (rmsd_best Rops ex_pos [0%nat; 1%nat] ex_refs [] (Some (0, 0, 0))) (Some (0, 0, 0)) in
+  norm2_sum Rops (vadd_list Rops g (fit_grads Rops (length [0%nat; 1%nat]) (Some (0, 0, 0)) g)) <> 0.
+Proof. exact ex_rmsd_centered. Qed.
 Example C07_ex_eigenvector :
   NoDup [0%nat; 1%nat] /\ length ex_evec = length [0%nat; 1%nat] /\ norm2_sum Rops (eig_vec Rops ex_evec) <> 0.
 Proof. exact ex_eigenvector. Qed.
